@@ -1,12 +1,12 @@
 SPECIFICATION Spec
 CONSTANTS
-  MaxH = 7
+  MaxH = 6
   Page = 3
   TSet = {0}
   RUB = FALSE
   MTB = 0
   GCP = 1
-  MaxCrash = 2
+  MaxCrash = 1
   MaxReset = 1
   Dev = {}
 INVARIANTS AbsAnswers AbsTip AbsHeights AbsReset CanRestart NoDead MemCanonical RestartTransparent DiskPages
